@@ -285,7 +285,6 @@ Definition check (c : case) : outcome :=
             climbing request, a touched upload area needs a walk through ".uploads"; when
             both fail, both triggers are required and finding 0 is reported *)
          o_trig := if badb then Some 2%N
-                   else if req_noslash q then Some 3%N
                    else if (negb need0 || req_climbs q) && (negb need1 || req_enters_uploads q)
                         then (if need0 then Some 0%N else if need1 then Some 1%N else None)
                         else None;
